@@ -27,6 +27,10 @@ type iterator struct {
 
 	cursors []*cursor // The len(cursors) <= len(ss.a) (+1 when lowerLevelIter).
 
+	// The number of cursors the iterator started with, which is the
+	// number of sources that have any entry in the iteration range.
+	numSources int
+
 	startKeyInclusive []byte
 	endKeyExclusive   []byte
 
@@ -189,6 +193,8 @@ func (ss *segmentStack) startIterator(
 
 	// ----------------------------------------------
 	// Heap-ify the cursors.
+
+	iter.numSources = len(iter.cursors)
 
 	heap.Init(iter)
 
@@ -453,7 +459,10 @@ func (iter *iterator) Pop() interface{} {
 // when there's only a single segment, then the heap can be avoided by
 // using a simpler, faster iteratorSingle implementation.
 func (iter *iterator) optimize() (Iterator, error) {
-	if len(iter.cursors) != 1 {
+	// A single remaining cursor is not enough: the sources of cursors
+	// that are exhausted by now (say, by the skipping of a leading
+	// deletion) still matter when the iterator is sought backwards.
+	if len(iter.cursors) != 1 || iter.numSources != 1 {
 		return iter, nil
 	}
 
